@@ -11,6 +11,9 @@ BUILD_TIMEOUT = 1800
 EXEC_TIMEOUT = 1800
 
 
+DEFERRED_INCONCLUSIVE = []     # reasons collected while preparing (a lane that could not be built); reported by finish()
+
+
 class Inconclusive(Exception):
     pass
 
@@ -393,7 +396,7 @@ def finish(pid, tier, seed, part, t0, rule, nontrivial_count=None, exhaustive=No
                 if kk not in shown and len(shown) < 16:
                     shown.add(kk)
                     print("  e.g. [%s] %s" % (kk, v["text"][:420]))
-    inconclusive = list(part.inconclusive)
+    inconclusive = list(part.inconclusive) + list(DEFERRED_INCONCLUSIVE)
     if part.evals < min_evals and not n_viol:
         inconclusive.append("only %d evaluations observed (floor %d)" % (part.evals, min_evals))
     wall = time.time() - t0
